@@ -144,6 +144,18 @@ def run(ctx):
         sigs[q] = preds
         res.check(preds == ["takes_values"], "R16.2", "possible_values-gate|" + q.rsplit("::", 2)[-2], b.where(), "possible values offered iff the arg takes values",
                   "%s gates the possible values on ValueRange::%s instead of takes_values(): args with an optional value lose their value list" % (q, preds))
+    # ... and hand out the parser's list as it is (hidden values are the generators' / the engine's business, per value): nothing but the
+    # takes-values gate may turn the list into None or shorten it
+    PV_OK = {"Arg::get_num_args", "Arg::get_value_parser", "Iterator::collect", "Option::expect", "Option::map", "ValueParser::possible_values", "ValueRange::takes_values",
+             "Option::unwrap", "Option::unwrap_or_default", "Option::then", "bool::then", "FromIterator::from_iter", "IntoIterator::into_iter"}
+    for q in ("clap_complete::aot::generator::utils::possible_values", "clap_complete::engine::complete::possible_values"):
+        b = fx.maybe_body(q)
+        if b is None:
+            continue
+        used = sorted(set((c.callee_q or c.decl_q or "?").rsplit("::", 2)[-2].split("<")[0] + "::" + (c.callee_q or c.decl_q or "?").rsplit("::", 1)[1] for t in tree(b) for c in t.calls() if not sp_macro(c.sp)))
+        extra = [u for u in used if u not in PV_OK]
+        res.check(not extra, "R16.2", "possible_values-list-as-declared|" + q.rsplit("::", 2)[-2], b.where(), "possible_values = the value parser's list, gated on takes_values only",
+                  "%s also applies %s to the list: values (or the whole list, e.g. as soon as one value is hidden) can disappear from every generated script" % (q, extra))
     if len(sigs) == 2:
         res.check(len(set(map(tuple, sigs.values()))) == 1, "R16.2", "possible_values-siblings-agree", "clap_complete", "AOT and dynamic helpers use the same gate", "AOT and dynamic possible_values helpers disagree: %s" % sigs)
     # R16.2f possible values are looked at before (never under) a value-hint test: an option with both keeps its value list
